@@ -42,10 +42,10 @@ def h_v1(sx):
         g = []
         parts = []
         for li in range(size):
-            names = KW_NAMES if sx.params.get("kw_names") else NAMES
+            names = sx.params.get("names") or (KW_NAMES if sx.params.get("kw_names") else NAMES)
             name = names[k % len(names)]
             k += 1
-            p = sx.choice("prefix:%d:%d" % (gi, li), list(range(len(PREFIXES))))
+            p = sx.choice("prefix:%d:%d" % (gi, li), sx.params.get("prefixes") or list(range(len(PREFIXES))))
             p = p if isinstance(p, int) else p.concretize()
             lim = sx.choice("limit:%d:%d" % (gi, li), [0, 1]) if sx.params.get("limits", True) else 0
             lim = lim if isinstance(lim, int) else lim.concretize()
@@ -187,6 +187,11 @@ def jobs(tier, seed):
                           {"shape": sh, "form": form, "protocol": "auto", "limits": False, "kw_names": True},
                           reach=["C08.v1-meaning(AND of OR, -/~ negate, @ optional)"], min_paths=10,
                           cost=6 ** sum(sh), validate=40, closure=False))
+    # the same tag in several groups (and with the same :limit more than once)
+    for form in ("list", "string"):
+        js.append(Job("v1rep.2x2.%s.v1" % form, "props.c08:h_v1",
+                      {"shape": [2, 2], "form": form, "protocol": "v1", "limits": True, "names": ["a", "b.c", "zzz", "a"], "prefixes": [0, 2]},
+                      reach=["C08.v1-meaning(AND of OR, -/~ negate, @ optional)"], min_paths=10, cost=4 ** 4, validate=40, closure=False))
     js.append(Job("config-history", "props.c08:h_config_history", {},
                   reach=["C08.earlier-configuration-does-not-change-dialect"], min_paths=10, cost=50, validate=40, closure=False))
     trees = trees_for(tier, seed)
